@@ -740,9 +740,15 @@ func (c *FuncCtx) evalBuiltin(st *State, n *ast.CallExpr, name string) []Value {
 		}
 		c.oblige(st, "make", "", And(Le(ConstI(0), ln), Le(ln, cp)), n)
 		s := SliceV{Addr: Var(c.freshName("make.addr"), SInt), Len: ln, Cap: cp, Elem: sl.Elem()}
-		st.assume(And(Le(ConstI(1), s.Addr), Le(s.Addr, Const(maxAddr))))
+		st.assume(And(Le(ConstI(1), s.Addr), Le(s.Addr, Const(maxAddr)), Le(brk0, s.Addr)))
 		c.setRange(s.Addr, bigOne, maxAddr)
-		c.assumed = append(c.assumed, "make: fresh allocation is not assumed disjoint from existing slices (conservative)")
+		// allocation model: a new slice lies above everything that existed at entry and apart from
+		// the slices this call has made before on the same path
+		for _, a := range st.allocs {
+			st.assume(Or(Le(Add(a.Addr, a.Cap), s.Addr), Le(Add(s.Addr, cp), a.Addr)))
+		}
+		st.allocs = append(st.allocs, s)
+		c.assumed = append(c.assumed, "allocation model: slices reachable from the inputs lie below a watermark brk0, make returns storage at or above it, disjoint from earlier makes of the same path")
 		if _, isInt := intKindOf(sl.Elem()); isInt {
 			h := c.heap(st, heapName(sl.Elem()))
 			p := Var(c.freshName("p"), SInt)
@@ -818,6 +824,13 @@ func (c *FuncCtx) regions(se *SpecEnv, exprs []ast.Expr) []region {
 	}
 	return out
 }
+
+// brk0 is the allocation watermark at function entry: every slice reachable from the inputs lies
+// below it, every slice allocated during the call (make, or a callee's `fresh` result) at or above it.
+var brk0 = Var("brk0", SInt)
+
+// existedAtEntry: frame obligations speak about the cells that existed when the function was entered.
+func existedAtEntry(p *Term) *Term { return Lt(p, brk0) }
 
 func outsideAll(p *Term, rs []region, heap string) *Term {
 	t := TTrue
@@ -1172,7 +1185,7 @@ func (c *FuncCtx) atReturn(st *State, vals []Value) {
 				continue
 			}
 			p := Var(c.freshName("p"), SInt)
-			ante := outsideAll(p, rs, h)
+			ante := And(existedAtEntry(p), outsideAll(p, rs, h))
 			// cells inside an output row of a rowloop are assigned as well
 			for _, rl := range c.con.RowLoops {
 				j := Var(c.freshName(rl.Var), SInt)
@@ -1305,7 +1318,7 @@ func (c *FuncCtx) execRowLoop(fr *frame, n *ast.RangeStmt, rl *RowLoopSpec, ord 
 				continue
 			}
 			p := Var(c.freshName("p"), SInt)
-			c.oblige(st, "frame-before-loop", fmt.Sprintf("loop%d.%s", ord, h), Implies(outsideAll(p, rs, h), Eq(Select(cur, p), Select(old, p))), n, facts...)
+			c.oblige(st, "frame-before-loop", fmt.Sprintf("loop%d.%s", ord, h), Implies(And(existedAtEntry(p), outsideAll(p, rs, h)), Eq(Select(cur, p), Select(old, p))), n, facts...)
 		}
 	}
 	pre := st.clone()
@@ -1493,7 +1506,7 @@ func (c *FuncCtx) execRowLoop(fr *frame, n *ast.RangeStmt, rl *RowLoopSpec, ord 
 				continue
 			}
 			p := Var(c.freshName("p"), SInt)
-			c.oblige(se, "rowframe", fmt.Sprintf("loop%d.%s", ord, h), Implies(outsideAll(p, rs, h), Eq(Select(cur, p), Select(old, p))), n, ff...)
+			c.oblige(se, "rowframe", fmt.Sprintf("loop%d.%s", ord, h), Implies(And(existedAtEntry(p), outsideAll(p, rs, h)), Eq(Select(cur, p), Select(old, p))), n, ff...)
 		}
 	}
 	nfr := *fr
